@@ -119,6 +119,17 @@ theorem interior_cell {k : Kernel} (hk : k ∈ kernels) (rows cols : Nat) (env :
   have : k.inLoop rows cols y x := by unfold Kernel.inLoop; omega
   simp [this]
 
+/-- the glue between the raster-level and the cell-level statements below: an interior cell of a public
+    function's output is `w.cell` of the 3×3 window around it (so every cell-level theorem -- documented
+    formula, NaN containment, ranges, flat windows -- holds at every interior cell of every raster) -/
+theorem wiring_run_interior {n : String} {w : TerrainWiring} (hw : (n, w) ∈ terrainWirings) (rows cols : Nat)
+    (rx ry : F) (pub : String → F) (get : Int → Int → F) (y x : Nat)
+    (hy : 1 ≤ y ∧ y + 1 < rows) (hx : 1 ≤ x ∧ x + 1 < cols) :
+    cellOf (w.run rows cols rx ry pub get) y x =
+      some (w.cell rx ry pub (fun dy dx => get ((y : Int) + dy) ((x : Int) + dx))) := by
+  have hk : w.kernel ∈ kernels := List.mem_map.2 ⟨(n, w), hw, rfl⟩
+  exact interior_cell hk rows cols _ _ _ y x hy hx
+
 end anyDomain
 
 /-! ## 2. the documented formulas (exact arithmetic) -/
@@ -743,8 +754,6 @@ theorem aspect_quarter_turn (L : Atan2Laws K) (w : Int → Int → NV K) (rx ry 
       rw [aspectDoc_rot L z]
       show _ = Option.map shift (aspect_wiring.cell rx ry pub (finW z))
       rw [h2]; rfl) w
-
-theorem option_map_id {α : Type} (o : Option α) : o.map id = o := by cases o <;> rfl
 
 /-- **quarter_turn**, raster level.  `get` is the raster (rows × cols); the turned raster (cols × rows) is
     `new[i, j] = get j (cols-1-i)` (`np.rot90`).  Slope and curvature of the turned raster are the turned
